@@ -151,7 +151,8 @@ comparison / isinstance / `not` result) carries a constraint on `v` (`w = t + t 
 pyanalyze applies that constraint (inverted in the else branch) to `v` although the truth value of `w` may come from
 another member of the union. -/
 def P_unionMemberConstraint (s : Sk) : Bool := s.testFlag == 2
-/-- own class: a `match` nested in a branch (of an `if`, a loop, a `try`, another `match`). When the cases
+/-- REPAIRED in /repo (232b32d): no longer one of the classes `d01Classes` reports — a recurrence is a new violation;
+kept as the description of the regression case in corpus/C01.jsonl. Formerly an own class: a `match` nested in a branch (of an `if`, a loop, a `try`, another `match`). When the cases
 exhaust the subject's inferred type (a wildcard last case, or `case None:` on a `None` subject, …) visit_Match marks
 the ENCLOSING scope as left, so the state of that branch is dropped at the next join. (Exhaustiveness depends on the
 inferred type of the subject; the predicate is the syntactic region.) -/
@@ -162,12 +163,14 @@ def d01Classes (prog : List Sk) : List String :=
   let c (name : String) (P : Sk → Bool) : List String := if scanL P false prog then [name] else []
   c "C02:promote" P_promote ++ c "unionMemberConstraint" P_unionMemberConstraint ++
   c "loopCarriedLiteral" P_loopCarriedLiteral ++
-  c "matchExhaustiveLeavesScope" P_matchExhaustive ++ c "C09:loopElse" P_loopElse ++
+  c "C09:loopElse" P_loopElse ++
   c "C09:secondVisitSeed" P_secondVisitSeed ++ c "C09:loopBreak" P_loopBreak ++
   c "C09:jumpThroughFinally" P_jumpThroughFinally ++ c "C09:loopJumpInSuppressing" P_loopJumpInSuppressing ++
   c "C09:nestedLoopJump" P_nestedLoopJump
 
-/-- own class for failing *operations* (not reads): `tuple + tuple` is typed through typeshed's
+/-- REPAIRED in /repo (b494820, `_tuple_add_impl`): the driver no longer reports it — a recurrence is a new violation;
+kept as the description of the regression case in corpus/C01.jsonl. Formerly an own class for failing *operations*
+(not reads): `tuple + tuple` is typed through typeshed's
 `tuple.__add__(self, value: tuple[_T_co, ...]) -> tuple[_T_co, ...]`, where pyanalyze solves `_T_co` from the
 argument only, so the element types of the left operand are lost. `op`: the operator, `l`/`r`: both runtime
 operands are tuples. -/
